@@ -657,6 +657,8 @@ def pin_case(prop, test_pattern, when, name, statuses=("ok", "fail"), max_exampl
     tests = [t for t in prop.tests if fnmatch.fnmatchcase(t.name, test_pattern)]
     if not tests:
         raise env.HarnessError(f"no test matches {test_pattern}")
+    if prop.selftest:
+        prop.selftest()  # (some properties build their reference tables there)
     for test in tests:
         best = [None]
 
